@@ -120,10 +120,11 @@ def table_key(spec, item):
     return table[(item[2]) % len(table)][1]
 
 
+_EDGE0 = st.sampled_from([0, 0, 1])  # boundary values get their own weight
 ISLICE_ARGS = st.one_of(
-    st.tuples(st.one_of(st.none(), st.integers(0, 9))),
-    st.tuples(st.one_of(st.none(), st.integers(0, 6)), st.one_of(st.none(), st.integers(0, 9))),
-    st.tuples(st.one_of(st.none(), st.integers(0, 6)), st.one_of(st.none(), st.integers(0, 9)),
+    st.tuples(st.one_of(st.none(), _EDGE0, st.integers(0, 9))),
+    st.tuples(st.one_of(st.none(), _EDGE0, st.integers(0, 6)), st.one_of(st.none(), _EDGE0, st.integers(0, 9))),
+    st.tuples(st.one_of(st.none(), _EDGE0, st.integers(0, 6)), st.one_of(st.none(), _EDGE0, st.integers(0, 9)),
               st.one_of(st.none(), st.integers(1, 4))),
 ).map(list)
 
@@ -227,8 +228,13 @@ def base_case(draw, name, max_len=8, max_src=4, steps="full", min_len=0, min_src
         srcs[0]["tail"] = uids.fix(("K", sentinel[1])) if sentinel[0] == "I" else sentinel
         srcs[0]["fl"] = "def"
     elif name == "accumulate":
-        if draw(st.booleans()):
+        choice = draw(st.integers(0, 7))
+        if choice < 4:
             v["initial"] = value_of_profile()
+        elif choice == 4:
+            v["initial"] = uids.fix(("EQ",))  # an initial value that is equal to everything
+        elif choice == 5:
+            v["initial"] = uids.fix(("GR", "eq", "ValueError"))  # ... or that cannot be compared
     elif name == "batched":
         params["n"] = draw(st.integers(1, 5))
         params["strict"] = draw(st.booleans())
@@ -240,7 +246,8 @@ def base_case(draw, name, max_len=8, max_src=4, steps="full", min_len=0, min_src
         params["n"] = draw(st.integers(0, 4))
     elif name == "zip_longest":
         if draw(st.booleans()):
-            v["fillvalue"] = draw(st.one_of(st.just(["n"]), K.map(uids.fix), st.just(["s", "fill"])))
+            v["fillvalue"] = draw(st.one_of(st.just(["n"]), K.map(uids.fix), st.just(["s", "fill"]),
+                                            st.just(("EQ",)).map(uids.fix), st.just(("GR", "eq", "ValueError")).map(uids.fix)))
     elif name == "merge":
         params["reverse"] = draw(st.booleans())
         for s in srcs:
@@ -277,11 +284,15 @@ def base_case(draw, name, max_len=8, max_src=4, steps="full", min_len=0, min_src
             else:
                 v["start"] = draw(NUM_PRIMS)
     elif name in ("min", "max"):
-        choice = draw(st.integers(0, 2))
+        choice = draw(st.integers(0, 4))
         if choice == 1:
             v["default"] = ["n"]
         elif choice == 2:
             v["default"] = uids.fix(("K", draw(st.integers(0, 3))))
+        elif choice == 3:
+            v["default"] = uids.fix(("EQ",))  # a default that is equal to everything
+        elif choice == 4 and profile != "grumpy-order":
+            v["default"] = uids.fix(("GR", "eq", "ValueError"))  # ... or that cannot be compared
     elif name == "dict":
         kw = draw(st.dictionaries(st.sampled_from(["a", "b", "k0", "zz"]), K.map(uids.fix), max_size=2))
         if kw:
